@@ -59,3 +59,31 @@ contract(IDB + '.remove_local', types={'sid': 'Union(Str, Bytes)'},
                             'valmap(self.db)[k] == old(valmap(self.db))[k]), "Val")'],
                     'modifies': ['dict(self.db)']}},
          clauses_from={'C18': ['C18-user-forgotten', 'C18-only-removes', 'raises']})
+
+contract(IDB + '.remove_remote', types={'name_id': NID},
+         requires=['is_str(name_id.text)'],
+         ensures=[# C18: a withdrawn identifier no longer resolves ...
+                  ('C18-reverse-entry-removed', 'not has_key(self.db, name_id.text)'),
+                  # ... and only the identifier's own entry and its user's list change
+                  ('C18-others-untouched', 'forall(lambda k: implies(k != name_id.text and k != old(self.db[name_id.text]), '
+                                           'has_key(self.db, k) == old(has_key(self.db, k)) and valmap(self.db)[k] == old(valmap(self.db))[k]), "Val")')],
+         raises={'KeyError': 'not has_key(self.db, name_id.text)', 'ValueError': 'True'},
+         modifies=['dict(self.db)'], local_types={'vals': 'List(Str)'},
+         clauses_from={'C18': ['C18-reverse-entry-removed', 'C18-others-untouched']})
+
+contract('copy:copy', trusted=True, params=['x'], returns=NID,
+         ensures=['fresh(result)', 'result.text == x.text', 'result.sp_provided_id == x.sp_provided_id', 'result.format == x.format',
+                  'result.name_qualifier == x.name_qualifier', 'result.sp_name_qualifier == x.sp_name_qualifier'],
+         assumptions=['A-PY'], note='shallow copy of a NameID: a new object with the same field values')
+contract(IDB + '.handle_manage_name_id_request',
+         types={'name_id': NID, 'new_id': "Opt(Inst('saml2_tophat.samlp:NewID'))", 'new_encrypted_id': 'Any', 'terminate': 'Any'},
+         returns=NID,
+         requires=['is_str(name_id.text)', 'has_key(self.db, name_id.text)', 'self.db[name_id.text] != name_id.text'],
+         ensures=[# C18: after NewID / Terminate the (still issued) identifier resolves to exactly the user it was issued for
+                  ('C18-still-resolves-to-same-user', 'has_key(self.db, name_id.text) and self.db[name_id.text] == old(self.db[name_id.text])'),
+                  ('C18-no-one-else-affected', 'forall(lambda k: implies(k != name_id.text and k != old(self.db[name_id.text]), '
+                                               'has_key(self.db, k) == old(has_key(self.db, k)) and valmap(self.db)[k] == old(valmap(self.db))[k]), "Val")'),
+                  ('same-object', 'result == name_id')],
+         raises={'ValueError': 'True'},
+         modifies=['dict(self.db)', 'name_id.sp_provided_id'],
+         clauses_from={'C18': ['C18-still-resolves-to-same-user', 'C18-no-one-else-affected']})
